@@ -153,8 +153,11 @@ def pass_case(ctx, rng, k):
         with open(os.path.join(p, "TLE_noaa16.txt"), "w") as fh:
             fh.write(filegen.NOAA14_TLE)
         tdir = p
+    # on every other POD pass without usable TLE the clock-drift correction runs first: it is the first to ask for the
+    # element set (and is skipped), the angle computation asks again
+    drift_first = tle == "stale" and fam == "pod" and (k // len(combos)) % 2 == 0
     r = filegen.reader_class(fmt)(tle_dir=tdir, tle_name="TLE_%(satname)s.txt", interpolate_coords=interp,
-                                  adjust_clock_drift=False)
+                                  adjust_clock_drift=drift_first)
     r.read(b.dsname, fileobj=io.BytesIO(data))
     payload = {"fmt": fmt, "start": start, "n": n, "interp": interp, "tle": tle, "flagged": flagged.tolist(), "stream": "pass"}
     try:
@@ -162,10 +165,17 @@ def pass_case(ctx, rng, k):
             warnings.simplefilter("ignore")
             lons, lats = r.get_lonlat()
             sat_azi, sat_zen, sun_azi, sun_zen, rel_azi = r.get_angles()
+            again = r.get_angles()
     except Exception as e:
         ctx.violation("%s (TLE %s, interpolation %s): get_angles raised %r" % (fmt, tle, interp, e), payload, cls="angles-raise:" + type(e).__name__)
         return
     arrs = {"sat_azi": sat_azi, "sat_zenith": sat_zen, "sun_azi": sun_azi, "sun_zenith": sun_zen, "rel_azi": rel_azi}
+    for (name, a), a2 in zip(arrs.items(), again):
+        if not np.array_equal(np.asarray(a), np.asarray(a2), equal_nan=True):
+            ctx.violation("%s (TLE %s): %s differs between the first and the second get_angles() on the same reader (max %.3f deg)" % (
+                fmt, tle, name, float(np.nanmax(np.abs(np.asarray(a, dtype=float) - np.asarray(a2, dtype=float))))), payload,
+                cls="angles-repeat:%s" % tle)
+            break
     shape = np.asarray(lons).shape
     for name, a in list(arrs.items()):
         if np.asarray(a).shape != shape:
